@@ -55,9 +55,9 @@ let vs_spec (pairs : (n * n) list) (effw : n -> n) (idx_of : n -> nat) probes to
   && sec "L" s = [string_of_int n]
   && sec "GI" s = ids && sec "GW" s = ws
   && sec "P" s = List.concat_map (fun id ->
-        [tok_of_n (effw id); tok_of_bool (Z.sign (z_of_n (effw id)) <> 0); tok_of_nat (idx_of id)]) probes
+        [tok_of_n (effw id); tok_of_bool (ZA.sign (z_of_n (effw id)) <> 0); tok_of_nat (idx_of id)]) probes
 
-let fits pairs = Z.leq (z_of_n (sum_weights pairs)) (z_of_n max_total)
+let fits pairs = ZA.leq (z_of_n (sum_weights pairs)) (z_of_n max_total)
 
 let small_spec ops probes obs =
   let pairs = eff_pairs ops in
